@@ -169,11 +169,11 @@ def cases(tier, seed=0):
         ident = kind.startswith("identity")
         for (Dx, Dy) in ([(1, 1)] if ident else [(1, 1), (2, 1), (1, 2)]):
             for (Rc, Rx) in batches:
-                if kind == "nncontrol" and Rc > 1:
+                if kind == "nncontrol" and Rc > 2:
                     continue
                 out.append(mi_case(kind, Dx, Dy, Rc, Rx))
         for (Rc, Rx) in ([(1, 1)] if tier == "quick" else batches):
-            if kind == "nncontrol" and Rc > 1:
+            if kind == "nncontrol" and Rc > 2:
                 continue
             for semi in rotations(kind, 2):
                 out.append(mi_case(kind, 2, 2, Rc, Rx, semi=semi))
@@ -183,7 +183,7 @@ def cases(tier, seed=0):
         if tier == "thorough" and not ident:
             for (Dx, Dy) in ((3, 1), (1, 3)):
                 for (Rc, Rx) in batches + [(1, 3)]:
-                    if kind == "nncontrol" and Rc > 1:
+                    if kind == "nncontrol" and Rc > 2:
                         continue
                     for semi in rotations(kind, 2):
                         out.append(mi_case(kind, Dx, Dy, Rc, Rx, semi=semi, timeout=1800))
